@@ -1,9 +1,9 @@
 SPECIFICATION Spec
 CONSTANTS
-  MaxNodes = 4
-  Eps = {1,2,3,4}
-  InitN = 4
-  MaxLoad = 1
+  MaxNodes = 3
+  Eps = {1,2,3}
+  InitN = 3
+  MaxLoad = 2
   P = 100
   Repaired = TRUE
   Faults = TRUE
